@@ -14,6 +14,8 @@
 (***************************************************************************)
 EXTENDS QRDecode
 
+\* qr.rs:211 QRBuilder::new: every option unset
+NewRegs(x) == [input |-> x, ecl |-> "none", mode |-> -1, version |-> -1, mask |-> -1]
 WantMode(b) == IF b.mode >= 0 THEN b.mode ELSE BestMode(b.input)
 WantLevel(b) == IF b.ecl = "none" THEN "Q" ELSE b.ecl
 InDomain(b) == ModeOK(b.input, WantMode(b))        \* outside: forced mode cannot carry the input, no claim (BuildUnspecified)
